@@ -40,6 +40,7 @@ type Hooks struct {
 	mu     sync.Mutex
 	cond   *sync.Cond
 	counts map[pk]int64
+	last   map[pk]time.Time
 	points map[string]int64
 	holds  []*Held
 	delay  atomic.Pointer[func(point string, node uint32, hit int64) time.Duration]
@@ -56,7 +57,7 @@ var (
 // InstallHooks installs the (process-wide) steering hook consumer.
 func InstallHooks() *Hooks {
 	hooksOnce.Do(func() {
-		hooks = &Hooks{counts: map[pk]int64{}, points: map[string]int64{}}
+		hooks = &Hooks{counts: map[pk]int64{}, last: map[pk]time.Time{}, points: map[string]int64{}}
 		hooks.cond = sync.NewCond(&hooks.mu)
 		gorums.VerifSetHook(hooks.hit)
 	})
@@ -68,6 +69,9 @@ func (h *Hooks) hit(point string, node uint32) {
 	k := pk{point, node}
 	h.counts[k]++
 	n := h.counts[k]
+	if point == "rcv.err" || point == "wat.beforeCancel" || point == "con.broken" {
+		h.last[k] = time.Now()
+	}
 	h.points[point]++
 	if h.trace && len(h.events) < 4096 {
 		h.events = append(h.events, fmt.Sprintf("%s@%d", point, node))
@@ -129,6 +133,13 @@ func (h *Hooks) Disarm(hd *Held) {
 	}
 	h.mu.Unlock()
 	hd.Release()
+}
+
+// Last returns the time of the last hit of a stream-failure point (rcv.err, wat.beforeCancel, con.broken) on node.
+func (h *Hooks) Last(point string, node uint32) time.Time {
+	h.mu.Lock()
+	defer h.mu.Unlock()
+	return h.last[pk{point, node}]
 }
 
 // Count returns the number of hits of point on node.
